@@ -86,8 +86,8 @@ Definition types_ok_gen (lk: vty -> bool) (s: site) : bool :=
   | KRepr | KAscii => negb (match s_types s with [] => true | _ => false end) && forallb lk (s_types s)
   | _ => true
   end.
-Definition types_ok := types_ok_gen literal_kind_sub.        (* partial: exact builtin values *)
-Definition types_ok_full := types_ok_gen literal_kind.       (* full: whatever passes the guard *)
+Definition types_ok := types_ok_gen literal_kind.            (* full: whatever passes the guard *)
+Definition types_ok_full := types_ok_gen literal_kind.
 
 Definition site_ok (s: site) : bool :=
   kind_ok (s_kind s) && before_ok (codes (s_before s)) && after_ok (codes (s_after s))
